@@ -4,15 +4,16 @@ import pickle
 
 from hypothesis import strategies as st
 
+from param.parameterized import batch_call_watchers, discard_events
 from vlib import models_static as ms
 from vlib.core import Result
 
 ID = "C17"
 LEVEL = "exploration"
 RULE = ("Hypothesis-generated pre-copy histories (<=8 ops: sets, single- and multi-key updates, in-place mutations of list/dict "
-        "values, per-instance Parameter edits (bounds, Selector objects), sub-object attach/replace/detach and leaf sets, a user "
+        "values, per-instance Parameter edits (bounds, Selector objects incl. unlabelled additions to dict-declared objects), sub-object attach/replace/detach and leaf sets, a user "
         "watcher, ordinary-attribute writes) x copy mechanism (deepcopy, pickle protocols 2-5) x diverging post-copy histories "
-        "(<=8 ops, each aimed at the original or the copy) over importable classes with depends(watch=True) methods on a value, "
+        "(<=8 ops, each aimed at the original, the copy or an optional second copy - of the copy or of the original -, optionally while a batch / discard_events context is open on another of these objects) over importable classes with depends(watch=True) methods on a value, "
         "on two values, on a Parameter attribute and (class Par) on a parameter of the attached sub-object; oracle = the copy "
         "succeeds, equality without shared mutable state at copy time, each side equals its own model afterwards, and each "
         "operation adds exactly its expected invocations to the log of the side it acted on and nothing to the other. "
@@ -31,6 +32,7 @@ _ops = st.one_of(
     st.tuples(st.just("bounds"), _k), st.tuples(st.just("objects"), _k), st.tuples(st.just("attach"), _k),
     st.tuples(st.just("detach"),), st.tuples(st.just("sub_x"), _k), st.tuples(st.just("sub_y"), _k),
     st.tuples(st.just("watch"),), st.tuples(st.just("extra"), _k), st.tuples(st.just("set_s"), st.integers(1, 3)),
+    st.tuples(st.just("sd_append"), _k), st.tuples(st.just("sd_setval"), _k), st.tuples(st.just("sd_setkey"), _k),
 ).map(list)
 
 
@@ -40,7 +42,12 @@ def _case(draw):
         "cls": draw(st.sampled_from(["ParNoSubDep", "ParNoSubDep", "Par"])),
         "pre": draw(st.lists(_ops, max_size=8)),
         "how": draw(st.sampled_from(["deepcopy", "pickle2", "pickle3", "pickle4", "pickle5", "deepcopy"])),
-        "post": draw(st.lists(st.tuples(st.integers(0, 1), _ops).map(list), max_size=8)),
+        # each post-copy operation is aimed at one object (0 original, 1 copy, 2 second copy if there is one) and may run
+        # while a batch / discard_events context is open on *another* of the objects
+        "post": draw(st.lists(st.tuples(st.integers(0, 2), _ops, st.sampled_from([None, None, "batch_other", "discard_other"])).map(list),
+                              max_size=8)),
+        "second": draw(st.sampled_from([None, "copy_of_copy", "another_copy"])),
+        "how2": draw(st.sampled_from(["deepcopy", "pickle2", "pickle5"])),
     }
 
 
@@ -54,6 +61,7 @@ class Side:
     def __init__(self, has_subdep):
         self.a, self.free, self.l, self.d = 1, None, [1], {"k": 1}
         self.s, self.bounds, self.objects = 1, (0, 100), [1, 2, 3]
+        self.sd, self.sd_objects = 1, [1, 2]
         self.sub = None            # None or [x, y]
         self.extra = {"n": 0}
         self.user_watchers = 0
@@ -119,6 +127,27 @@ def _apply(op, obj, m, marks):
     elif k == "set_s":
         obj.s = op[1]
         m.s = op[1]
+    elif k == "sd_append":
+        v = 50 + op[1]
+        if v not in m.sd_objects:
+            obj.param.sd.objects.append(v)          # list-style: no label
+            m.sd_objects.append(v)
+        marks.add("per_instance_parameter")
+        marks.add("unlabelled_selector_object")
+    elif k == "sd_setval":
+        v = 50 + op[1]
+        obj.sd = v                                  # check_on_set=False: joins the objects, without a label
+        m.sd = v
+        if v not in m.sd_objects:
+            m.sd_objects.append(v)
+        marks.add("per_instance_parameter")
+        marks.add("unlabelled_selector_object")
+    elif k == "sd_setkey":
+        v = 50 + op[1]
+        if v not in m.sd_objects:
+            obj.param.sd.objects[f"key{v}"] = v
+            m.sd_objects.append(v)
+        marks.add("per_instance_parameter")
     elif k == "attach":
         x = op[1]
         old = m.sub
@@ -161,12 +190,14 @@ def _apply(op, obj, m, marks):
 
 def _state(obj):
     return {"a": obj.a, "free": obj.free, "l": list(obj.l), "d": dict(obj.d), "s": obj.s,
-            "bounds": obj.param.a.bounds, "objects": list(obj.param.s.objects),
+            "bounds": obj.param.a.bounds, "objects": list(obj.param.s.objects), "sd": obj.sd,
+            "sd_objects": list(obj.param.sd.objects), "sd_range": list(obj.param.sd.get_range().values()),
             "sub": None if obj.sub is None else [obj.sub.x, obj.sub.y], "extra": dict(obj.extra)}
 
 
 def _model_state(m):
     return {"a": m.a, "free": m.free, "l": list(m.l), "d": dict(m.d), "s": m.s, "bounds": m.bounds, "objects": list(m.objects),
+            "sd": m.sd, "sd_objects": list(m.sd_objects), "sd_range": list(m.sd_objects),
             "sub": None if m.sub is None else list(m.sub), "extra": dict(m.extra)}
 
 
@@ -216,27 +247,65 @@ def execute(case):
             res.fail("C17.shared_mutable_state", f"{region}the per-instance Parameter {pn!r} is shared")
         if pa is not None and pb is not None and pn == "s" and pa._objects is pb._objects:
             res.fail("C17.shared_mutable_state", f"{region}the objects list of the per-instance Selector is shared")
+    # ---- an optional second copy (of the copy, or of the original) -----------------------------
+    objs, models = [orig, cp], [m0, m1]
+    if case.get("second"):
+        src_i = 1 if case["second"] == "copy_of_copy" else 0
+        try:
+            if case.get("how2", "deepcopy") == "deepcopy":
+                cp2 = copy.deepcopy(objs[src_i])
+            else:
+                cp2 = pickle.loads(pickle.dumps(objs[src_i], protocol=int(case["how2"][-1])))
+        except Exception as e:  # noqa: BLE001
+            res.fail("C17.copy_failed", f"{region}second copy ({case['second']}, {case['how2']}) raised {type(e).__name__}: {e}")
+            return res
+        objs.append(cp2)
+        models.append(models[src_i].clone())
+        res.label("second_copy:" + case["second"])
+        if _state(cp2) != _model_state(models[2]):
+            res.fail("C17.copy_not_equal", f"{region}second copy ({case['second']}): {_state(cp2)!r}, model {_model_state(models[2])!r}")
+    names_ = ["original", "copy", "second copy"]
     # ---- diverging histories ---------------------------------------------------------
     touched = set()
-    for side, op in case["post"]:
-        obj, m = (orig, m0) if side == 0 else (cp, m1)
-        other = cp if side == 0 else orig
-        touched.add(side)
-        lb, ob = len(obj.log), len(other.log)
+    for entry in case["post"]:
+        side, op = entry[0] % len(objs), entry[1]
+        ctx = entry[2] if len(entry) > 2 else None
+        obj, m = objs[side], models[side]
+        other_i = (side + 1) % len(objs)
+        if ctx and len(objs) > 2 and side != 2:
+            other_i = 2 if other_i != 2 and entry[0] % 2 else other_i      # prefer a context on a restored object
+        touched.add(min(side, 1))
+        lens = [len(o.log) for o in objs]
+        who = names_[side]
+        tag = region + ("[multi-param-batch-on-copy] " if op[0] == "update2" and side >= 1 else "")
         try:
-            exp = _apply(op, obj, m, marks)
+            if ctx == "batch_other":
+                with batch_call_watchers(objs[other_i]):
+                    exp = _apply(op, obj, m, marks)
+                    new = sorted(obj.log[lens[side]:], key=repr)
+                res.label("op_inside_batch_of_another_object")
+                tag += f"[while a batch was open on the {names_[other_i]}] "
+            elif ctx == "discard_other":
+                with discard_events(objs[other_i]):
+                    exp = _apply(op, obj, m, marks)
+                    new = sorted(obj.log[lens[side]:], key=repr)
+                res.label("op_inside_discard_events_of_another_object")
+                tag += f"[inside discard_events of the {names_[other_i]}] "
+            else:
+                exp = _apply(op, obj, m, marks)
+                new = sorted(obj.log[lens[side]:], key=repr)
         except Exception as e:  # noqa: BLE001
-            res.fail("C17.operation_failed_after_copy", f"{region}{op!r} on the {'copy' if side else 'original'} raised "
-                                                        f"{type(e).__name__}: {e}")
+            res.fail("C17.operation_failed_after_copy", f"{region}{op!r} on the {who} raised {type(e).__name__}: {e}")
             break
-        new = sorted(obj.log[lb:], key=repr)
-        who = "copy" if side else "original"
-        tag = region + ("[multi-param-batch-on-copy] " if op[0] == "update2" and side == 1 else "")
         if exp is not None and new != exp:
             res.fail("C17.dependency_log", f"{tag}{op!r} on the {who} ({case['how']}) logged {new!r} there, expected {exp!r}")
-        if len(other.log) != ob:
-            res.fail("C17.acts_on_other_side", f"{region}{op!r} on the {who} appended {other.log[ob:]!r} to the log of the other object")
-        for o, mm, w in ((orig, m0, "original"), (cp, m1, "copy")):
+        elif exp is not None and sorted(obj.log[lens[side]:], key=repr) != exp:
+            res.fail("C17.dependency_log", f"{tag}{op!r} on the {who}: more was logged once the context on the other object "
+                                           f"ended: {obj.log[lens[side]:]!r}, expected {exp!r}")
+        for j, o in enumerate(objs):
+            if j != side and len(o.log) != lens[j]:
+                res.fail("C17.acts_on_other_side", f"{region}{op!r} on the {who} appended {o.log[lens[j]:]!r} to the log of the {names_[j]}")
+        for o, mm, w in zip(objs, models, names_):
             if _state(o) != _model_state(mm):
                 res.fail("C17.not_independent", f"{region}after {op!r} on the {who}, the {w} is {_state(o)!r}, its own model says "
                                                 f"{_model_state(mm)!r}")
